@@ -830,7 +830,7 @@ def i_STRB(i, fmap):
     off_addr = (src + sht) if i.add else (src - sht)
     adr = off_addr if i.index else src
     result = fmap(dest[0:8])
-    fmap[mem(adr, 8)] = stst(cond, result, mem(adr, 8))
+    fmap[mem(adr, 8)] = stst(cond, result, fmap(mem(adr, 8)))
     if i.wback:
         fmap[src] = stst(cond, fmap(off_addr), fmap(src))
 
